@@ -378,3 +378,189 @@ Proof.
     { apply Rle_ge. unfold Rdiv. apply Rmult_le_compat_l; [lra|]. apply Rinv_le_contravar; lra. }
     replace (tgR / rho0 vT1 / 2) with (tgR / (2 * rho0 vT1)) by (field; lra). lra.
 Qed.
+
+(* ---- T2 == 0 (pure dephasing off): T1 > 0; the coherence decays with the T1-limited rate 1/(2 T1) ---- *)
+Theorem relaxation_channel_P01 E rho0 :
+  respects rho0 (rp_defs P01) ->
+  0 <= rho0 vDt -> 0 < rho0 vT1 ->
+  gaussian_pair E (std_W P01 rho0) (std_I P01 rho0) ->
+  shot_avg E P01 rho0 = channel (rho0 vDt / rho0 vT1) (rho0 vDt / rho0 vT1 / 2) (dm_a rho0) (dm_br rho0) (dm_bi rho0) (dm_d rho0).
+Proof.
+  intros R HDt HT1 HG.
+  change (std_W P01 rho0) with (rho0 (r_sW P01)) in HG. change (std_I P01 rho0) with (rho0 (r_sI P01)) in HG.
+  rewrite (shot_avg_moments E _ _ HG P01 rho0 (Q2R (r_q P01))).
+  2, 3, 6: vmr.
+  2: { apply (rate_direct P01 rho0 (r_q P01)); vmr. }
+  2: { intros w i. apply sample_env_I; vmr. }
+  pose proof tgR_pos as Htg.
+  assert (S1 : rho0 (r_e1 P01) * rho0 (r_e1 P01) = tgR / rho0 vT1) by (apply (e1_squared (rp_defs P01) vT1); [vmr | exact R | exact HT1]).
+  assert (G0 : 0 <= rho0 vDt / rho0 vT1) by (now apply ratio_nonneg).
+  exp_fact P01 rho0 R (r_x P01) (ENeg (EMul (sq (r_e1 P01)) Delta)) SX.
+  cbn [interpR sq Delta tg] in SX. fold tgR in SX. simpl pow in SX. rewrite Rmult_1_r, S1 in SX.
+  replace (tgR / rho0 vT1 * (rho0 vDt / tgR)) with (rho0 vDt / rho0 vT1) in SX by (field; lra).
+  sqrt_fact P01 rho0 R (r_sI P01) (ESub E1 (EVar (r_x P01))) SI. cbn [interpR E1] in SI. rewrite SX, Q2R_1' in SI.
+  exp_fact P01 rho0 R (rp_O P01) (ENeg (EDiv (EMul (sq (r_e1 P01)) Delta) (EQ (2#1)%Q))) SO.
+  cbn [interpR sq Delta tg] in SO. fold tgR in SO. simpl pow in SO. rewrite Rmult_1_r, S1, Q2R_2 in SO.
+  replace (tgR / rho0 vT1 * (rho0 vDt / tgR)) with (rho0 vDt / rho0 vT1) in SO by (field; lra).
+  apply channel_of_moments.
+  - apply SI. pose proof (exp_neg_le_1 _ G0). lra.
+  - exact SO.
+  - replace (Q2R (r_q P01)) with 0 by (vm_compute; lra). ring.
+Qed.
+
+(* ---- T1 == 0 (amplitude damping off): T2 > 0; populations unchanged, coherence decays with 1/T2 ---- *)
+Theorem relaxation_channel_P10 E rho0 :
+  respects rho0 (rp_defs P10) ->
+  0 <= rho0 vDt -> 0 < rho0 vT2 ->
+  gaussian_pair E (std_W P10 rho0) (std_I P10 rho0) ->
+  shot_avg E P10 rho0 = channel 0 (rho0 vDt / rho0 vT2) (dm_a rho0) (dm_br rho0) (dm_bi rho0) (dm_d rho0).
+Proof.
+  intros R HDt HT2 HG.
+  change (std_W P10 rho0) with (rho0 (r_sW P10)) in HG. change (std_I P10 rho0) with (rho0 (r_sI P10)) in HG.
+  rewrite (shot_avg_moments E _ _ HG P10 rho0 (Q2R (r_q P10) * rho0 (r_ep P10))).
+  2, 3, 6: vmr.
+  2: { apply (rate_prod P10 rho0 (r_q P10) (r_prod P10) (r_ep P10)); vmr. }
+  2: { intros w i. apply sample_env_I; vmr. }
+  pose proof tgR_pos as Htg.
+  assert (S2 : rho0 (r_e2 P10) * rho0 (r_e2 P10) = tgR / rho0 vT2) by (apply (e1_squared (rp_defs P10) vT2); [vmr | exact R | exact HT2]).
+  sqrt_fact P10 rho0 R (r_ep P10) (EMul (EQ (1#2)%Q) (sq (r_e2 P10))) Sp.
+  cbn [interpR sq] in Sp. simpl pow in Sp. rewrite !Rmult_1_r, S2, Q2R_half' in Sp.
+  sqrt_fact P10 rho0 R (r_sW P10) Delta SW. cbn [interpR Delta tg] in SW. fold tgR in SW.
+  exp_fact P10 rho0 R (r_x P10) E0 SX. cbn [interpR E0] in SX. rewrite Q2R_0', exp_0 in SX.
+  sqrt_fact P10 rho0 R (r_sI P10) (ESub E1 (EVar (r_x P10))) SI. cbn [interpR E1] in SI. rewrite SX, Q2R_1' in SI.
+  exp_fact P10 rho0 R (rp_O P10) E0 SO. cbn [interpR E0] in SO. rewrite Q2R_0', exp_0 in SO.
+  assert (Z : - (0 / 2) = 0) by field.
+  apply channel_of_moments.
+  - rewrite Ropp_0, exp_0. rewrite SI; lra.
+  - rewrite Z, exp_0. exact SO.
+  - replace (Q2R (r_q P10)) with 1 by (vm_compute; lra).
+    rewrite SW by (apply ratio_nonneg; lra).
+    replace (1 * rho0 (r_ep P10) * (1 * rho0 (r_ep P10))) with (rho0 (r_ep P10) * rho0 (r_ep P10)) by ring.
+    rewrite Sp. field. lra.
+    apply Rmult_le_pos; [lra | apply ratio_nonneg; lra].
+Qed.
+
+(* ---- T1 == 0 and T2 == 0: the identity channel ---- *)
+Theorem relaxation_channel_P11 E rho0 :
+  respects rho0 (rp_defs P11) ->
+  gaussian_pair E (std_W P11 rho0) (std_I P11 rho0) ->
+  shot_avg E P11 rho0 = channel 0 0 (dm_a rho0) (dm_br rho0) (dm_bi rho0) (dm_d rho0).
+Proof.
+  intros R HG.
+  change (std_W P11 rho0) with (rho0 (r_sW P11)) in HG. change (std_I P11 rho0) with (rho0 (r_sI P11)) in HG.
+  rewrite (shot_avg_moments E _ _ HG P11 rho0 (Q2R (r_q P11))).
+  2, 3, 6: vmr.
+  2: { apply (rate_direct P11 rho0 (r_q P11)); vmr. }
+  2: { intros w i. apply sample_env_I; vmr. }
+  exp_fact P11 rho0 R (r_x P11) E0 SX. cbn [interpR E0] in SX. rewrite Q2R_0', exp_0 in SX.
+  sqrt_fact P11 rho0 R (r_sI P11) (ESub E1 (EVar (r_x P11))) SI. cbn [interpR E1] in SI. rewrite SX, Q2R_1' in SI.
+  exp_fact P11 rho0 R (rp_O P11) E0 SO. cbn [interpR E0] in SO. rewrite Q2R_0', exp_0 in SO.
+  assert (Z : - (0 / 2) = 0) by field.
+  apply channel_of_moments.
+  - rewrite Ropp_0, exp_0. rewrite SI; lra.
+  - rewrite Z, exp_0. exact SO.
+  - replace (Q2R (r_q P11)) with 0 by (vm_compute; lra). field.
+Qed.
+
+(* ================= 7. the shot environment is a run of the traced program ================= *)
+(* for every pair of sample values the environment of section 4 respects ALL the tracer's definitions (the strengths and
+   standard deviations do not depend on the samples; the product variables follow their samples) *)
+Definition keys {A} (s : list (nat * A)) : list nat := map fst s.
+Lemma lookup_none s v : mem v (keys s) = false -> lookup s v = None.
+Proof. induction s as [|[w t] r IH]; simpl; [reflexivity|]. intros H. apply orb_false_elim in H as [H1 H2]. rewrite H1. now apply IH. Qed.
+Definition odef_beq (a b : odef) : bool :=
+  match a, b with OProd x, OProd y => expr_beq x y | _, _ => false end.
+Definition def_static_ok (p : relax_path) (vd : nat * odef) : bool :=
+  let ps := prod_subst (rp_defs p) in
+  match snd vd with
+  | OProd e => match lookup ps (fst vd) with Some e' => expr_beq e' e | None => false end && negb (mentions (keys ps) e)
+  | OSqrt e | OExpReal e | OInv e => static p (fst vd) && negb (mentions (rp_W p :: rp_I p :: keys ps) e)
+  | OInt _ _ _ => true
+  end.
+Definition defs_static_ok (p : relax_path) : bool := forallb (def_static_ok p) (rp_defs p).
+Lemma relax_defs_static : forallb defs_static_ok gen_relax_paths = true.
+Proof. vm_compute. reflexivity. Qed.
+
+Lemma sample_env_out p rho0 w i v : mem v (rp_W p :: rp_I p :: keys (prod_subst (rp_defs p))) = false -> sample_env p rho0 w i v = rho0 v.
+Proof. cbn [mem]. intros H. apply orb_false_elim in H as [H1 H]. apply orb_false_elim in H as [H2 H3].
+  apply sample_env_static. unfold static. now rewrite (lookup_none _ _ H3), H1, H2. Qed.
+Lemma sample_env_noprod p rho0 w i v : mem v (keys (prod_subst (rp_defs p))) = false ->
+  sample_env p rho0 w i v = set2 rho0 (rp_W p) w (rp_I p) i v.
+Proof. intros H. unfold sample_env, env_of. now rewrite (lookup_none _ _ H). Qed.
+
+Theorem sample_env_respects p rho0 w i : defs_static_ok p = true -> respects rho0 (rp_defs p) ->
+  respects (sample_env p rho0 w i) (rp_defs p).
+Proof.
+  unfold defs_static_ok, respects. rewrite forallb_forall, !Forall_forall. intros K R [v d] Hin.
+  specialize (K _ Hin). specialize (R _ Hin). unfold def_static_ok in K. cbn [fst snd] in *.
+  set (l := (rp_W p :: rp_I p :: keys (prod_subst (rp_defs p)))) in *.
+  assert (A : forall e, mentions l e = false -> interpC (sample_env p rho0 w i) e = interpC rho0 e).
+  { intros e. apply interpC_agree. intros v'. apply sample_env_out. }
+  destruct d as [e|e|e|e|k a b]; cbn [respects_def] in *.
+  - apply andb_prop in K as [K1 K2]. apply negb_true_iff in K2. now rewrite (sample_env_static _ _ _ _ _ K1), (A _ K2).
+  - apply andb_prop in K as [K1 K2]. apply negb_true_iff in K2. now rewrite (sample_env_static _ _ _ _ _ K1), (A _ K2).
+  - apply andb_prop in K as [K1 K2]. apply negb_true_iff in K2. now rewrite (sample_env_static _ _ _ _ _ K1), (A _ K2).
+  - apply andb_prop in K as [K1 K2]. apply negb_true_iff in K2.
+    destruct (lookup (prod_subst (rp_defs p)) v) as [e'|] eqn:L; [|discriminate]. apply expr_beq_eq in K1. subst e'.
+    rewrite (interpC_agree (keys (prod_subst (rp_defs p))) (sample_env p rho0 w i) (set2 rho0 (rp_W p) w (rp_I p) i)); [| | exact K2].
+    + unfold sample_env at 1. unfold env_of. now rewrite L.
+    + intros v'. apply sample_env_noprod.
+  - exact I.
+Qed.
+
+(* ================= 8. the hypotheses are jointly satisfiable ================= *)
+(* an environment built by executing the definitions in order *)
+Definition upd (rho : env) (v : nat) (x : R) : env := fun u => if Nat.eqb u v then x else rho u.
+Definition def_val (d : odef) (rho : env) : R :=
+  match d with
+  | OSqrt e => sqrt (Re (interpC rho e)) | OExpReal e => exp (Re (interpC rho e))
+  | OInv e => / Re (interpC rho e) | OProd e => Re (interpC rho e) | OInt _ _ _ => 0
+  end.
+Definition def_expr (d : odef) : expr := match d with OSqrt e | OExpReal e | OInv e | OProd e => e | OInt _ _ _ => EQ (0#1)%Q end.
+Fixpoint build (defs : list (nat * odef)) (rho : env) : env :=
+  match defs with [] => rho | (v, d) :: r => build r (upd rho v (def_val d rho)) end.
+Fixpoint ordered (defs : list (nat * odef)) : bool :=
+  match defs with [] => true | (v, d) :: r => negb (mentions (v :: keys r) (def_expr d)) && negb (mem v (keys r)) && ordered r end.
+Lemma build_out defs : forall rho v, mem v (keys defs) = false -> build defs rho v = rho v.
+Proof. induction defs as [|[u d] r IH]; intros rho v H; cbn [build]; [reflexivity|].
+  cbn [keys map fst mem] in H. apply orb_false_elim in H as [H1 H2]. rewrite (IH _ _ H2). unfold upd. now rewrite H1. Qed.
+Lemma build_respects defs : forall rho, ordered defs = true -> respects (build defs rho) defs.
+Proof. induction defs as [|[v d] r IH]; intros rho H; [constructor|].
+  cbn [ordered] in H. apply andb_prop in H as [H H3]. apply andb_prop in H as [H1 H2]. apply negb_true_iff in H1, H2.
+  constructor; [|apply IH; exact H3]. cbn [fst snd build].
+  assert (V : build r (upd rho v (def_val d rho)) v = def_val d rho) by (rewrite (build_out _ _ _ H2); unfold upd; now rewrite Nat.eqb_refl).
+  assert (A : interpC (build r (upd rho v (def_val d rho))) (def_expr d) = interpC rho (def_expr d)).
+  { apply (interpC_agree (v :: keys r)); [|exact H1]. intros u Hu. cbn [mem] in Hu. apply orb_false_elim in Hu as [U1 U2].
+    rewrite (build_out _ _ _ U2). unfold upd. now rewrite U1. }
+  destruct d; cbn [respects_def def_expr def_val] in *; try (now rewrite V, A). exact I.
+Qed.
+Lemma relax_defs_ordered : forallb (fun p => ordered (rp_defs p)) gen_relax_paths = true.
+Proof. vm_compute. reflexivity. Qed.
+
+(* parameters T1 = T2 = 1, Dt = 0: both standard deviations are 0 and the point mass is the law of the samples *)
+Definition ex_base : env := fun v => if Nat.eqb v vDt then 0 else 1.
+Definition ex_env : env := build (rp_defs P00) ex_base.
+Lemma sq_zero x : x * x = 0 -> x = 0.
+Proof. intros H. apply Rmult_integral in H. tauto. Qed.
+Lemma relaxation_channel_hypotheses_satisfiable :
+  exists E rho0, respects rho0 (rp_defs P00) /\ 0 <= rho0 vDt /\ 0 < rho0 vT1 /\ 0 < rho0 vT2 /\ rho0 vT2 <= 2 * rho0 vT1 /\
+                 gaussian_pair E (std_W P00 rho0) (std_I P00 rho0).
+Proof.
+  exists (fun f => f 0 0), ex_env.
+  assert (R : respects ex_env (rp_defs P00)) by (apply build_respects; vmr).
+  assert (VD : ex_env vDt = 0) by (unfold ex_env; rewrite build_out by vmr; reflexivity).
+  assert (V1 : ex_env vT1 = 1) by (unfold ex_env; rewrite build_out by vmr; reflexivity).
+  assert (V2 : ex_env vT2 = 1) by (unfold ex_env; rewrite build_out by vmr; reflexivity).
+  split; [exact R|]. rewrite VD, V1, V2. repeat (split; [lra|]).
+  change (std_W P00 ex_env) with (ex_env (r_sW P00)). change (std_I P00 ex_env) with (ex_env (r_sI P00)).
+  pose proof tgR_pos as Htg.
+  assert (S1 : ex_env (r_e1 P00) * ex_env (r_e1 P00) = tgR / ex_env vT1) by (apply (e1_squared (rp_defs P00) vT1); [vmr | exact R | rewrite V1; lra]).
+  sqrt_fact P00 ex_env R (r_sW P00) Delta SW. cbn [interpR Delta tg] in SW. fold tgR in SW. rewrite VD in SW.
+  exp_fact P00 ex_env R (r_x P00) (ENeg (EMul (sq (r_e1 P00)) Delta)) SX.
+  cbn [interpR sq Delta tg] in SX. fold tgR in SX. simpl pow in SX. rewrite Rmult_1_r, S1, VD in SX.
+  replace (- (tgR / ex_env vT1 * (0 / tgR))) with 0 in SX by (unfold Rdiv; ring). rewrite exp_0 in SX.
+  sqrt_fact P00 ex_env R (r_sI P00) (ESub E1 (EVar (r_x P00))) SI. cbn [interpR E1] in SI. rewrite SX, Q2R_1' in SI.
+  replace (ex_env (r_sW P00)) with 0 by (symmetry; apply sq_zero; rewrite SW; unfold Rdiv; [ring | lra]).
+  replace (ex_env (r_sI P00)) with 0 by (symmetry; apply sq_zero; rewrite SI; lra).
+  exact gaussian_pair_dirac.
+Qed.
